@@ -39,6 +39,10 @@ enum Call {
     RemoveRule(usize),
     /// `knowledge_base().add_rule(..)` of a rule removed earlier: it becomes the newest rule
     ReAddRule(usize),
+    /// `*engine.knowledge_base_mut() = <a new KnowledgeBase>` holding the rules that are present
+    /// now, added in REVERSED order (same number of add_rule calls), with the enabled flags as
+    /// first written
+    ReplaceKb,
     /// `execute` in which the first action that runs takes longer than the engine's timeout (only
     /// in cases with `timeout_ms`): the call ends on the timeout error path
     ExecSlow,
@@ -68,6 +72,7 @@ fn call_json(c: &Call) -> Json {
         Call::ExecAt(t) => json!({"execute_at_time_ms": t, "rel": format!("T0{:+}ms", t - T0)}),
         Call::ExecNow => json!("execute"),
         Call::ExecSlow => json!("execute_with_a_slow_first_action"),
+        Call::ReplaceKb => json!("replace_the_knowledge_base_by_a_new_one_with_the_present_rules_in_reversed_order"),
         Call::ExecCallback => json!("execute_with_callback"),
         Call::SetFocus(g) => json!({"set_agenda_focus": g}),
         Call::Pop => json!("pop_agenda_focus"),
@@ -85,6 +90,7 @@ fn call_from(j: &Json) -> Option<Call> {
         return Some(match s {
             "execute" => Call::ExecNow,
             "execute_with_a_slow_first_action" => Call::ExecSlow,
+            "replace_the_knowledge_base_by_a_new_one_with_the_present_rules_in_reversed_order" => Call::ReplaceKb,
             "execute_with_callback" => Call::ExecCallback,
             "pop_agenda_focus" => Call::Pop,
             "clear_agenda_focus" => Call::Clear,
@@ -183,6 +189,7 @@ struct Obs {
     hook_missing: bool,
     exec_err: u64,
     slow_calls: u64,
+    kb_replacements: u64,
     timeout_errs: u64,
     tie_pairs_seen: u64,
     loa_firings: u64,
@@ -357,6 +364,23 @@ fn judge(case: &Case) -> (Verdict, Obs) {
                 if *i < n {
                     let _ = engine.knowledge_base().set_rule_enabled(&case.rules[*i].ast.name, *b);
                     enabled[*i] = *b;
+                }
+            }
+            Call::ReplaceKb => {
+                let fresh = KnowledgeBase::new("verif");
+                let rev: Vec<usize> = kb_order.iter().rev().copied().collect();
+                let mut ok = true;
+                for i in &rev {
+                    ok &= fresh.add_rule(built[*i].clone()).is_ok();
+                }
+                if ok {
+                    *engine.knowledge_base_mut() = fresh;
+                    kb_order = rev;
+                    for i in &kb_order {
+                        enabled[*i] = case.rules[*i].enabled;
+                    }
+                    (order, rank_of) = compute_order(&kb_order);
+                    obs.kb_replacements += 1;
                 }
             }
             Call::RemoveRule(i) => {
@@ -737,6 +761,7 @@ fn record(case: &Case, st: &mut Stats) {
     st.add("execute_calls", obs.exec_calls);
     st.add("execute_returned_err", obs.exec_err);
     st.add("execute_calls_with_a_slow_first_action", obs.slow_calls);
+    st.add("knowledge_base_replaced_wholesale", obs.kb_replacements);
     st.add("execute_calls_that_ended_on_the_timeout_error", obs.timeout_errs);
     st.add("equal_salience_successive_firings", obs.tie_pairs_seen);
     st.add("focus_changes_by_ActivateAgendaGroup_action", obs.focus_changes_by_action);
@@ -851,13 +876,11 @@ fn gen_case(rng: &mut Rng) -> Case {
             14..=15 => Call::Activate(grp(rng)),
             16 => Call::ResetNoLoop,
             17 => Call::SetEnabled(rng.below(n), rng.bool()),
-            18 => {
-                if rng.bool() {
-                    Call::RemoveRule(rng.below(n))
-                } else {
-                    Call::ReAddRule(rng.below(n))
-                }
-            }
+            18 => match rng.below(5) {
+                0 | 1 => Call::RemoveRule(rng.below(n)),
+                2 | 3 => Call::ReAddRule(rng.below(n)),
+                _ => Call::ReplaceKb,
+            },
             _ => Call::WorkflowStep(grp(rng)),
         };
         calls.push(c);
@@ -958,7 +981,7 @@ impl Check for C02 {
         "C02"
     }
     fn rule(&self) -> String {
-        "2-8 rules (one case in 25: 21-32 rules) over boolean flags that the actions flip (self- and mutually triggering), salience from {-2,-1,0,0,1,1,i32::MAX,i32::MIN} (ties on purpose), no-loop / lock-on-active with probability 1/2, 0-3 agenda groups, 2 activation groups, date windows around three instants, some with boundaries inside a second (instants are milliseconds; evaluation exactly at, one millisecond and one second before and after each boundary, and at several offsets inside the boundary's own second), 1/8 disabled, ActivateAgendaGroup actions; histories of 1-6 calls (execute_at_time, execute, execute_with_callback, set/pop/clear focus, activate_agenda_group, reset_no_loop_tracking, set_rule_enabled, remove_rule / re-add of a removed rule, execute_workflow_step) on one engine, max_cycles 1-5; plus a few histories (3 per shard quick, 40 thorough) on an engine with a 40 ms timeout in which one execute ends on the timeout error path (its first action sleeps past the timeout) between ordinary calls; plus the exhaustive grid of all 32x32 attribute subsets on two rules with a fixed activator rule and call history. Non-trivial: at least 2 firings over at least 2 passes; distinct by the whole case.".into()
+        "2-8 rules (one case in 25: 21-32 rules) over boolean flags that the actions flip (self- and mutually triggering), salience from {-2,-1,0,0,1,1,i32::MAX,i32::MIN} (ties on purpose), no-loop / lock-on-active with probability 1/2, 0-3 agenda groups, 2 activation groups, date windows around three instants, some with boundaries inside a second (instants are milliseconds; evaluation exactly at, one millisecond and one second before and after each boundary, and at several offsets inside the boundary's own second), 1/8 disabled, ActivateAgendaGroup actions; histories of 1-6 calls (execute_at_time, execute, execute_with_callback, set/pop/clear focus, activate_agenda_group, reset_no_loop_tracking, set_rule_enabled, remove_rule / re-add of a removed rule, wholesale replacement of the knowledge base through knowledge_base_mut() by a new one holding the present rules in reversed order, execute_workflow_step) on one engine, max_cycles 1-5; plus a few histories (3 per shard quick, 40 thorough) on an engine with a 40 ms timeout in which one execute ends on the timeout error path (its first action sleeps past the timeout) between ordinary calls; plus the exhaustive grid of all 32x32 attribute subsets on two rules with a fixed activator rule and call history. Non-trivial: at least 2 firings over at least 2 passes; distinct by the whole case.".into()
     }
     fn assumptions(&self) -> Vec<String> {
         vec![
